@@ -389,9 +389,7 @@ func isReady(g *ExecutionGraph, node *Node) bool {
 }
 
 func (sc *Scheduler) runHandlerNode(ctx context.Context, node *Node) error {
-	defer func() {
-		node.data.State.FinishedAt = time.Now()
-	}()
+	defer node.finish()
 
 	node.setStatus(NodeStatusRunning)
 
